@@ -41,8 +41,11 @@ fn main() {
   let ctx = Ctx::parse(&prop, &args[2..]);
   let mut rep = Report::new(&prop);
   match prop.as_str() {
+    "C25" => props::c25::run(&ctx, &mut rep),
     "C26" => props::c26::run(&ctx, &mut rep),
     "C29" | "C30" => props::c29::run(&ctx, &mut rep, &prop),
+    "C31" => props::c31::run_c31(&ctx, &mut rep),
+    "C34" => props::c31::run_c34(&ctx, &mut rep),
     "C32" => props::c32::run(&ctx, &mut rep),
     "C33" => props::c33::run(&ctx, &mut rep),
     other => {
